@@ -28,7 +28,9 @@ ASSUMPTIONS = ["fixture package importable by name", "the __module__ of an anony
 
 EXTRA_VALUES = ["Color.RED", "[Color.RED, Color.BLUE]", "Color", "AbcImpl()", "AbcBase", "WithMeta()", "WithMeta", "{'a': AbcImpl()}", "NotImplemented", "int.__dict__", "H.NoneType()", "H.mappingproxy()", "H.Any()", "H.Union()", "H.List()", "[H.NoneType()]", "{'a': H.NoneType()}", "H.NoneType", "[NotImplemented, None]",
                 # classes that are falsy (metaclass __len__ / __bool__) and typing.TypedDict classes, as instances and as class objects
-                "OD.Registry()", "OD.Registry", "OD.Flagless()", "OD.Flagless", "[OD.Registry(), OD.Flagless()]", "OD.Movie", "OD.Options", "OD.Api.Payload", "[OD.Movie, OD.Options]", "(OD.Api.Payload, 1)", "{'a': OD.Movie}"]
+                "OD.Registry()", "OD.Registry", "OD.Flagless()", "OD.Flagless", "[OD.Registry(), OD.Flagless()]", "OD.Movie", "OD.Options", "OD.Api.Payload", "[OD.Movie, OD.Options]", "(OD.Api.Payload, 1)", "{'a': OD.Movie}",
+                # dict keys that are parameter names of the TypedDict constructor; PEP 585 / 604 alias OBJECTS as values
+                "{'total': 3, 'items': [0]}", "{'fields': 1, 'typename': 2, 'self': 3}", "[{'total': False}]", "list[int]", "int | None", "[list[int], dict[str, int]]", "{'a': int | str}", "(tuple[int, ...],)"]
 
 
 def _ns():
